@@ -310,8 +310,11 @@ def worker(args):
         lab.trees.reset()
         return rec.result()
     for u in range(args["universes"]):
-        ents = lab.new_universe(names=(rng.sample(["a", "a-b", "ab", "b", "oph", "x_rig", "a.b", "rig", "\U0001F600hero", "cafe\u0301", "B"], 3) if rng.random() < 0.5
-                                        else sorted({"rig", "x_rig", rng.choice(["a", "b", "oph"])})))
+        nm = (rng.sample(["a", "a-b", "ab", "b", "oph", "x_rig", "a.b", "rig", "\U0001F600hero", "cafe\u0301", "B"], 3) if rng.random() < 0.5
+              else sorted({"rig", "x_rig", rng.choice(["a", "b", "oph"])}))
+        if u % 3 == 0:
+            nm = sorted(set(nm) | {"\U0001F600hero", "\uffffz"})      # names beyond the BMP / at its end sort after every other name
+        ents = lab.new_universe(names=nm)
         add_dup_finder(lab)
         add_const_finders(lab)
         uid = "%s-%d" % (args.get("seed"), u)
@@ -333,12 +336,27 @@ def worker(args):
                 for name, f in lab.finders.items():
                     if not name.startswith("const:"):
                         check_pair(rec, lab, name, f, "alias", s2, ders, None, case)
-        for k in range(args["searches"]):
-            s, info = lab.search(allow_last=False)
+        # the shallow levels (those a data configuration may answer from constants, each from the one above): '*' at every
+        # combination of positions, so that every hand-over between the Finders of two levels is asked with a symbol above it
+        shallow = []
+        deep = [e for e in lab.full if len(e.split("/")) >= 4]
+        if deep:
+            e4 = rng.choice(deep).split("/")
+            for d in (2, 3, 4):
+                for mask in range(1, 2 ** d):
+                    shallow.append("/".join("*" if mask >> i & 1 else e4[i] for i in range(d)))
+        for k in range(args["searches"] + len(shallow)):
+            if k >= args["searches"]:
+                s = shallow[k - args["searches"]]
+                rec.count("shallow_symbol_combinations")
+            else:
+                s, info = lab.search(allow_last=False)
             if filter_is_unspecified(s) or ">" in s:
                 continue
             rec.ev()
             finders = list(lab.finders.items())
+            if k >= args["searches"]:
+                finders = [(n_, f_) for n_, f_ in finders if n_ == "all" or n_.startswith("all:")] or finders
             if k % 3:
                 finders = [rng.choice(finders)]
             for name, f in finders:
